@@ -314,10 +314,12 @@ class MechCorr:
                 # a formula modelx cannot take: a reason for refusal the model does not know; nothing may have changed
                 return UNM if acc else ["obs"]
             return ["modulebatch", op[1], es(op[1], names)]
+        first = batch_api.import_module_checks_first()
         if twin:
-            return UNM       # ... here the code leaves the space behind (known finding), the model knows no reason to refuse
+            # ... here the space-first code leaves the space behind (known finding), the model knows no reason to refuse
+            return (UNM if acc else ["obs"]) if first else UNM
         path = op[2] if op[1] == "-" else op[1] + "." + op[2]
-        return ["spacemodule", op[1], op[2], self.csv(op[5] if len(op) > 5 and op[5] else []), es(path, names)]
+        return ["spacemodulechecked" if first else "spacemodule", op[1], op[2], self.csv(op[5] if len(op) > 5 and op[5] else []), es(path, names)]
 
     def finish(self, out, hist_of, stats=None):
         if len(self.lines) <= 1:
